@@ -87,7 +87,7 @@ def plain_body(rng, d, max_body, hl, lx, faults):
             hl_n += 1
             num = str(hl_n) if rng.random() >= faults else rng.choice(['', 'x', str(hl_n + 1), '0' + str(hl_n)])
             if parents and rng.random() < 0.7:
-                par = str(rng.choice(parents)) if rng.random() >= faults else rng.choice(['99', 'x', '0'])
+                par = str(rng.choice(parents)) if rng.random() >= max(faults, 0.08) else rng.choice(['99', 'x', '0', str(hl_n + 1), str(hl_n + 2), str(hl_n + 3)])
             else:
                 par = ''
             parents.append(hl_n)
